@@ -98,7 +98,7 @@ TEXT = {
                 'model on quick-xml\'s own event stream.',
                 note='quick-xml itself (no panic / termination on arbitrary strings) is exercised, not proved.',
                 technique='Lean 4 proof (totality) + fault enumeration + differential correspondence', ref='DESIGN.md 5 C19'),
-    'C20': dict(level='Exhaustive sweep of ~100 public functions over 8 kinds x 12 degenerate shapes x 3 weight modes x all argument values incl. '
+    'C20': dict(level='Exhaustive sweep of ~100 public functions over 8 kinds x 18 degenerate shapes x 3 weight modes x all argument values incl. '
                 'an absent name, each call under catch_unwind (overflow checks on); outcome classes compared with the error-channel table '
                 '(specification) and with the models; theorems that the modelled functions never reach a panic site on reachable stores.',
                 note='The pub-fn table is regenerated from the source on every run; functions outside the models are covered by the sweep only.',
